@@ -20,6 +20,7 @@ str_strip = z3.Function("str_strip", smt.S, smt.S)
 str_lstrip1 = z3.Function("str_lstrip1", smt.S, smt.S, smt.S)  # s.lstrip(ch)
 str_replace_all = z3.Function("str_replace_all", smt.S, smt.S, smt.S, smt.S)
 bytes_strip = z3.Function("bytes_strip", smt.Sq, smt.Sq)
+bytes_lower = z3.Function("bytes_lower", smt.Sq, smt.Sq)
 str_isdigit = z3.Function("str_isdigit", smt.S, smt.Bool)
 latin1_enc = z3.Function("latin1_enc", smt.S, smt.Sq)
 latin1_ok = z3.Function("latin1_ok", smt.S, smt.Bool)
